@@ -30,9 +30,8 @@ theorem visit_inert (cfg : Config) : ∀ (f : Nat) (root : Bool) (n : Node) (s :
       simp only [mapKidsM, run_bind, run_pure]
       rw [mapM'_id _ _ _ (fun k hk' s' => ih r k s' (hk k hk')), Node.withKids_kids]
     cases n with
-    | bin | assign | tpl | call | optChain | arrow => simp [inertTNode] at hi
+    | bin | assign | tpl | call | optChain | arrow | block => simp [inertTNode] at hi
     | ident nm sp => simp [visit, run_bind, run_pure]
-    | block ss sp => simp [visit, run_pure]
     | unary op a sp =>
       simp only [visit]
       split
@@ -130,7 +129,7 @@ theorem DeepEr_of_parts (cx : Cx) (lo hi : Nat) (elems' : List Node) (asp : Span
   | array es' asp' =>
     simp only [argInner, array.injEq] at hx
     obtain ⟨rfl, rfl⟩ := hx
-    obtain ⟨X, Δ, eX, sX, _⟩ := hE []
+    obtain ⟨X, Δ, eX, sX, _⟩ := hE _ (BRg.refl _) []
     rw [eraseL_array] at eX
     have hX : X = .array (eraseL [] es').1 asp' := (congrArg Prod.fst eX).symm
     have hst := sX.1
@@ -148,5 +147,19 @@ theorem DeepEr_of_parts (cx : Cx) (lo hi : Nat) (elems' : List Node) (asp : Span
 theorem DeepEr_of_VC {lo hi : Nat} {a' a : Node} (cx : Cx) (h : VC lo hi a' a) (hs : srcOk a = true) : DeepEr cx lo hi a' a := by
   intro elems' asp he
   exact DeepEr_of_parts cx lo hi elems' asp a' a h.2.2.1 h.1 hs he
+
+/-- an inert tree has no block statement in it -/
+theorem inertT_noBlk : ∀ n : Node, inertT n = true → noBlk n = true := by
+  apply Node.ind
+  intro n ih h
+  rw [inertT_eq, Bool.and_eq_true] at h
+  rw [noBlk_eq]
+  have h1 : isBlockNode n = false := by
+    cases n <;> first | rfl | simp [inertTNode] at h
+  simp only [h1, Bool.not_false, Bool.true_and]
+  unfold noBlkL
+  rw [List.all_eq_true]
+  intro k hk
+  exact ih k hk (List.all_eq_true.mp h.2 k hk)
 
 end IastModel
